@@ -31,6 +31,9 @@ def run(tier):
     v3_ok = all((" " + x + " ") in cpu or (" " + x + "\n") in cpu for x in ("avx2", "bmi1", "bmi2", "fma", "movbe"))
     if v3_ok:
         flavours.append("v3")
+    v4_ok = v3_ok and all((" " + x + " ") in cpu or (" " + x + "\n") in cpu for x in ("avx512f", "avx512bw", "avx512cd", "avx512dq", "avx512vl"))
+    if v4_ok:
+        flavours.append("v4")
     for k, fl in enumerate(flavours):
         runs.append((rt.TREE.program(fl, "vprim.c", name="vprim-" + fl, wrap=False, libs="-lgcrypt"), run_.seed + 7 + k))
     cmds = [[e, "cmp", tier, str(s)] for e, s in runs]
@@ -97,6 +100,7 @@ def run(tier):
                     {"algorithm": "pbkdf2-sha256", "pwlen": 65, "saltlen": 52, "c": 1, "dkLen": 64}],
         "messages_of_2^29_bytes_and_more": stats.get("huge_messages", 0),
         "x86-64-v3_build_run": v3_ok,
+        "x86-64-v4_build_run": v4_ok,
         "flavour": "gcc address+undefined, and -O2 -DNDEBUG, -Os, -O2 -march=x86-64-v2 / -v3 builds; oracle libgcrypt in process",
     }
     return run_.finish(cov, assumptions=[
